@@ -42,6 +42,23 @@ add("C07", "model_checking",
     "bounded-exhaustive enumeration of programs x delegation masks x calls on the real implementation vs a reference chain",
     "DESIGN.md section 5 C07")
 
+add("C03", "model_checking",
+    "Every signature set of the stated space (all valid combinations of positional-only / positional-or-keyword, required / optional, "
+    "keyword-only required / optional parameters; uniform or differing names; function, bound method, descriptor) x every call shape "
+    "x both entry points is executed on the real code; the selected method's bindings, defaults, result and exception are compared "
+    "by object identity with the reference (R1-R3, R7).",
+    "Trusted: reference model; calls whose reference outcome is a tie are skipped (C02).",
+    "bounded-exhaustive enumeration of signature sets x call shapes on the real implementation with identity-tracking sentinels",
+    "DESIGN.md section 5 C03")
+
+add("C04", "model_checking",
+    "Explicit-state breadth-first search over call histories of the real function for every program of the stated families "
+    "(static, delegating, recursive walker, Literal / Dependent): all reachable cache states up to closure or the stated depth, "
+    "and in each state every call of the corpus, must give the first-call-ever outcome.",
+    "Trusted: the canonical cache snapshot used to merge states (its soundness is tested on every run by re-expanding re-reached states).",
+    "explicit-state BFS over operation histories replayed on the real objects, differential oracle against a brand-new function",
+    "DESIGN.md section 5 C04")
+
 ALL = [f"C{i:02d}" for i in range(1, 21)]
 REASON_PENDING = "check not built yet in this round (planned: DESIGN.md section 5); not claimed until its machinery exists"
 
